@@ -36,9 +36,13 @@ func genBytes(t *rapid.T) bytesCase {
 	n := rapid.IntRange(0, 40).Draw(t, "nfrag")
 	var b bytes.Buffer
 	for i := 0; i < n; i++ {
-		switch rapid.IntRange(0, 3).Draw(t, "frag-kind") {
-		case 0:
+		switch rapid.IntRange(0, 19).Draw(t, "frag-kind") {
+		case 0, 1, 2, 3, 4:
 			b.Write(rapid.SliceOfN(rapid.Byte(), 0, 6).Draw(t, "raw"))
+		case 5:
+			// a run long enough to cross the readers' 4096-byte line buffer
+			ch := rapid.SampledFrom([]byte{'A', 'I', '\t', '#', '9'}).Draw(t, "long-ch")
+			b.Write(bytes.Repeat([]byte{ch}, rapid.SampledFrom([]int{4095, 4096, 4097, 8192, 9000}).Draw(t, "long-n")))
 		default:
 			b.WriteString(rapid.SampledFrom(fragments).Draw(t, "frag"))
 		}
@@ -76,7 +80,7 @@ type mutCase struct {
 	Muts   []mut          `json:"muts"`
 }
 
-var hostileFields = []string{"0", "-0", "+", ".", "", "0x", "1e3", "9223372036854775808", "-9223372036854775809", "١", "NaN", "Inf", "\x00", "\xff\xfe", "##", "#", ">", "@", "1_0", " 5", "5 ", "++", "x", "1,2", ",", ";", "a b;;c", "\"", "-", "1.5"}
+var hostileFields = []string{"-1", "-7", "9223372036854775807", "-9223372036854775808", "2", "255", "256", "0", "-0", "+", ".", "", "0x", "1e3", "9223372036854775808", "-9223372036854775809", "١", "NaN", "Inf", "\x00", "\xff\xfe", "##", "#", ">", "@", "1_0", " 5", "5 ", "++", "x", "1,2", ",", ";", "a b;;c", "\"", "-", "1.5"}
 var hostileLines = []string{"##gff-version", "##gff-version x", "##gff-version 3", "##gff-version 2", "##sequence-region a", "##sequence-region a 0 5", "##sequence-region a x 5", "##sequence-region a 1 y",
 	"##sequence-region", "##DNA", "##DNA x", "##RNA", "##Protein", "##date", "##date notadate", "##date 2012-1-01", "##Type", "##Type DNA", "##", "##end-DNA", "##source-version", "##source-version x", "#", ">", "@", "+", "",
 	"\t\t\t\t\t\t\t\t", "a\tb\tc\t1\t2\t.\t+", "a\tb\tc\t1\t2\t.\t+\t.", "a\tb\tc\t0\t2\t.\t+\t.", "a\tb\tc\t1\t2\t.\t+\t.\t9x y", "a\tb\tc\t1\t2\t.\t+\t.\t\t\t\t", "c\t1", "c\t1\t2", "c\t1\t2\tn\t0\t+\t1\t2\t0\t2\t1\t0", "c\t1\t2\tn\t0\t+\t1\t2\t1,2\t1\t1\t0", "@a", "+a", ">x y", "IIII", "ACGT"}
@@ -175,7 +179,7 @@ func genMutCase(t *rapid.T) mutCase {
 	c := mutCase{Format: rapid.SampledFrom([]string{"fasta", "fastq", "bed", "gff", "gff", "bed"}).Draw(t, "format")}
 	switch c.Format {
 	case "fasta", "fastq":
-		f := iogen.GenSeqFile(t, c.Format, 3, false)
+		f := iogen.GenSeqFile(t, c.Format, 3, rapid.IntRange(0, 3).Draw(t, "allow-long") == 0)
 		c.Seq = &f
 	case "bed":
 		f := iogen.GenBedFile(t, 3)
@@ -185,7 +189,7 @@ func genMutCase(t *rapid.T) mutCase {
 		f := iogen.GenGffFile(t, 4)
 		c.Gff = &f
 	}
-	n := rapid.IntRange(1, 3).Draw(t, "nmuts")
+	n := rapid.IntRange(0, 3).Draw(t, "nmuts")
 	for i := 0; i < n; i++ {
 		c.Muts = append(c.Muts, mut{Op: rapid.SampledFrom(mutOps).Draw(t, "op"), Line: rapid.IntRange(0, 30).Draw(t, "line"),
 			Col: rapid.IntRange(0, 400).Draw(t, "col"), Arg: rapid.IntRange(0, 255).Draw(t, "arg")})
@@ -210,6 +214,16 @@ func TestMutatedFiles(t *testing.T) {
 			l := []string{"format-" + c.Format}
 			for _, m := range c.Muts {
 				l = append(l, "op-"+m.Op)
+			}
+			if len(c.Muts) == 0 {
+				l = append(l, "unmutated-valid-file")
+			}
+			if c.Seq != nil {
+				for _, r := range c.Seq.Recs {
+					if r.Len >= 4096 {
+						l = append(l, "line>=4096")
+					}
+				}
 			}
 			if CountLines(c.base()) >= 2 {
 				l = append(l, vlib.NT)
